@@ -648,6 +648,8 @@ std::list<SuppressionList::Suppression> SuppressionList::getUnmatchedGlobalSuppr
 
 std::list<SuppressionList::Suppression> SuppressionList::getUnmatchedInlineSuppressions() const
 {
+    // read without the mutex: only legal when no worker is running any more
+    VERIF_EVT("Access", verif::kv("obj", "suppressions") + verif::kv("kind", "R") + verif::kb("held", verif::held(mSuppressionsSync)) + verif::kv("site", "getUnmatchedInlineSuppressions"));
     std::list<SuppressionList::Suppression> result;
     for (const SuppressionList::Suppression &s : SuppressionList::mSuppressions) {
         if (!s.isInline)
@@ -667,6 +669,7 @@ std::list<SuppressionList::Suppression> SuppressionList::getUnmatchedInlineSuppr
 std::list<SuppressionList::Suppression> SuppressionList::getSuppressions() const
 {
     std::lock_guard<std::mutex> lg(mSuppressionsSync);
+    VERIF_EVT("Access", verif::kv("obj", "suppressions") + verif::kv("kind", "R") + verif::kb("held", verif::held(mSuppressionsSync)) + verif::kv("site", "getSuppressions"));
 
     return mSuppressions;
 }
